@@ -46,3 +46,8 @@ for _ch in (1, 2):
         what='decoder gain at a mode transition: the factor is computed once per decoded frame, also when concealment audio is cross-faded in'))
 
 META = {'cex': {'self': True, 'timeout': 900}}
+
+for _c in (1, 2):
+  GROUPS.append(dict(name='softclip_frame_p_c%d' % _c, cls='P', tier='off', tu='C19_softclip_p.c', entry='h_softclip_p', canary='real', unwind=1, timeout=2400, mem_gb=40, defines=['-U__SSE__', '-DVERIF_C=%d' % _c], cbmc_flags=['--object-bits', '10'],
+    functions=['opus_pcm_soft_clip'], assumptions=['N*C <= 2^26 (the API states no bound; the index arithmetic is int)'],
+    what='soft clipper for any N and C, any float bit patterns: every access inside x[0..N*C) and declip_mem[0..C), no index overflow, every loop terminates (nine loop contracts)'))
